@@ -1,6 +1,6 @@
 From Coq Require Import ZArith List Bool Reals Lra.
 From Flocq Require Import Core BinarySingleNaN.
-Require Import GV.FloatBase GV.FloatLemmas GV.AngleM GV.AngleProofs GV.GeonumM GV.GeonumProofs GV.TraitsM GV.NewProofs GV.CtorProofs.
+Require Import GV.FloatBase GV.FloatLemmas GV.AngleM GV.AngleProofs GV.GeonumM GV.GeonumProofs GV.TraitsM GV.NewProofs GV.CtorProofs GV.ClosureProofs GV.SumUpper.
 Open Scope R_scope.
 Require Import GV.Properties.C14.
 Check C14_same : forall (L : libm) a b, aeqb (ang a) (ang b) = true ->
@@ -23,3 +23,33 @@ Check C14_general_history : forall (L : libm) a b, aeqb (ang a) (ang b) = false 
   fin (total_angle (sum_adjusted L a b) PI) -> Rabs (R_ (total_angle (sum_adjusted L a b) PI)) <= bpow radix2 42 ->
   canonp (rem (ang (gadd_vv L a b))) /\ (blade (ang a) + blade (ang b) <= blade (ang (gadd_vv L a b)))%Z.
 Print Assumptions C14_general_history.
+Check C14_general_upper : forall (L : libm) a b, aeqb (ang a) (ang b) = false ->
+  aeqb (add_vv (ang a) (new one one)) (ang b) || aeqb (add_vv (ang b) (new one one)) (ang a) = false ->
+  (0 <= blade (ang a) + blade (ang b) < 2 ^ 53)%Z ->
+  fin (total_angle (sum_adjusted L a b) PI) -> Rabs (R_ (total_angle (sum_adjusted L a b) PI)) <= bpow radix2 42 ->
+  R_ (total_angle (sum_adjusted L a b) PI) <= 4 ->
+  (blade (ang a) + blade (ang b) <= blade (ang (gadd_vv L a b)) <= blade (ang a) + blade (ang b) + 4)%Z /\
+  (blade (ang (gadd_vv L a b)) = (blade (ang a) + blade (ang b) + 4)%Z -> R_ (rem (ang (gadd_vv L a b))) <= / 256).
+Print Assumptions C14_general_upper.
+Check C14_general_bounds : forall (L : libm) a b, aeqb (ang a) (ang b) = false ->
+  aeqb (add_vv (ang a) (new one one)) (ang b) || aeqb (add_vv (ang b) (new one one)) (ang a) = false ->
+  (0 <= blade (ang a) + blade (ang b) < 2 ^ 40)%Z ->
+  let at_ := atan2F L (fadd (fmul (mag a) (sinF L (grade_angle (ang a)))) (fmul (mag b) (sinF L (grade_angle (ang b)))))
+                      (fadd (fmul (mag a) (cosF L (grade_angle (ang a)))) (fmul (mag b) (cosF L (grade_angle (ang b))))) in
+  fin at_ -> Rabs (R_ at_) <= R_ PI ->
+  canonp (rem (ang (gadd_vv L a b))) /\
+  (blade (ang a) + blade (ang b) <= blade (ang (gadd_vv L a b)) <= blade (ang a) + blade (ang b) + 4)%Z /\
+  (blade (ang (gadd_vv L a b)) = (blade (ang a) + blade (ang b) + 4)%Z -> R_ (rem (ang (gadd_vv L a b))) <= / 256).
+Print Assumptions C14_general_bounds.
+Check C14_new_blade_upper : forall p d, fast_path p d = false ->
+  fin (total_angle p d) -> Rabs (R_ (total_angle p d)) <= bpow radix2 42 -> R_ (total_angle p d) <= 4 ->
+  (blade (new p d) <= 4)%Z /\ (blade (new p d) = 4%Z -> R_ (rem (new p d)) <= / 256).
+Print Assumptions C14_new_blade_upper.
+Check C14_upper_inhabited :
+  let a := {| mag := one; ang := {| rem := zero; blade := 0 |} |} in
+  let b := {| mag := one; ang := {| rem := zero; blade := 1 |} |} in
+  aeqb (ang a) (ang b) = false /\
+  aeqb (add_vv (ang a) (new one one)) (ang b) || aeqb (add_vv (ang b) (new one one)) (ang a) = false /\
+  (0 <= blade (ang a) + blade (ang b) < 2 ^ 40)%Z /\
+  fin (atan2F trivial_libm zero zero) /\ Rabs (R_ (atan2F trivial_libm zero zero)) <= R_ PI.
+Print Assumptions C14_upper_inhabited.
